@@ -167,6 +167,16 @@ def make_tree_copy(root):
 
 def apply_edit(tree, w):
     """Apply witness edits.  Returns None if applied, else reason for skipping."""
+    if w.get("patch"):
+        # a unified diff kept under /verif (the seeded changes of DESIGN §8)
+        pf = os.path.join(VERIF, w["patch"])
+        if not os.path.exists(pf):
+            return "patch file %s missing" % w["patch"]
+        r = subprocess.run(["git", "apply", "--whitespace=nowarn", pf], cwd=tree,
+                           stdout=subprocess.PIPE, stderr=subprocess.STDOUT)
+        if r.returncode != 0:
+            return "patch no longer applies: " + r.stdout.decode()[-200:]
+        return None
     edits = w.get("edits") or [w]
     for e in edits:
         p = os.path.join(tree, e["file"])
@@ -226,7 +236,11 @@ def run_witness(prop, w, root):
         why = apply_edit(tree, w)
         if why:
             return "skipped", why
-        files = [e["file"] for e in (w.get("edits") or [w])]
+        if w.get("patch"):
+            with open(os.path.join(VERIF, w["patch"])) as pfh:
+                files = sorted({l[6:].strip() for l in pfh if l.startswith("+++ b/")})
+        else:
+            files = [e["file"] for e in (w.get("edits") or [w])]
         okc, errs = compiles(tree, files)
         if not okc:
             return "fail", "witness no longer compiles with the build's warning flags: " + errs
